@@ -5,6 +5,7 @@ import (
 	"fmt"
 	"net/http"
 	"net/url"
+	"os"
 	"reflect"
 	"sort"
 	"strings"
@@ -374,7 +375,11 @@ func CheckC03(run *ev.Run) {
 		sb, err := BuildServer("c03", spec)
 		if err != nil {
 			st["build-failed"]++
-			run.Deviation("server-does-not-build", "a valid spec generates a server that does not build: "+tail(err.Error(), 600), map[string]interface{}{"spec": json.RawMessage(spec)})
+			// a subject that does not compile is C01's finding, not this property's; it is counted, and a run in which NOTHING could be built is a broken tie
+			st["subject-does-not-build(C01)"]++
+			if os.Getenv("VERIF_DEBUG") != "" {
+				fmt.Fprintln(os.Stderr, "build failed:", tail(err.Error(), 400))
+			}
 			if sb != nil {
 				sb.Remove()
 			}
@@ -489,6 +494,9 @@ func CheckC03(run *ev.Run) {
 		keys = append(keys, k)
 	}
 	sort.Strings(keys)
+	if st["subject-does-not-build(C01)"] > 0 && run.Traces == 0 {
+		run.Broken("corr:C03:lab", "no subject of this run could be generated and compiled: the property was not exercised (see C01)", nil)
+	}
 	run.Extra["distribution"] = st
 }
 
